@@ -48,7 +48,16 @@ def gen_inherit(rng):
     exp_eqs = list(base_eqs)
     new_vars = {}
     kind = rng.choice(['replace', 'replace', 'replace', 'replace2', 'append', 'add', 'remove', 'vars-only', 'replace+add',
-                       'replace+add'])
+                       'replace+add', 'delayterm'])
+    if kind == 'delayterm':
+        # feature interaction: an inherited edit of a term that stands directly before the bracket of the delay shorthand
+        # x(t-d); decided on the equation TEXT of the derived template (no compile)
+        base_eqs[1] = base_eqs[1] + ' + kk*rr(t-dl)'
+        base_vars['dl'] = 0.05
+        exp_eqs = list(base_eqs)
+        edits['replace'] = {'kk*rr': 'g2*rr'}
+        exp_eqs = [re.sub(r'(?<![A-Za-z0-9_])kk\*rr(?![A-Za-z0-9_])', 'g2*rr', e) for e in exp_eqs]
+        new_vars['g2'] = 0.625
     if kind == 'replace+add':
         # one edit dictionary with both keys; the added equation mentions the replaced identifier and must stay verbatim
         old = rng.choice(['k', 'r2', 'kk', 'm_in2'])
@@ -261,6 +270,29 @@ class C15(Check):
             inh = trace['inh']
             with open('inh.yaml', 'w') as f:
                 f.write(inherit_yaml(inh))
+            # (0) the equation TEXT of the derived operator, loaded in this process
+            try:
+                der_op = OperatorTemplate.from_yaml(os.path.join(cwd, 'inh/der_op'))
+                got_eqs = [' '.join(str(e).split()) for e in der_op.equations]
+            except Exception as e:
+                got_eqs = None
+                load_exc = f'{type(e).__name__}: {str(e)[:120]}'
+            want_eqs = [' '.join(e.split()) for e in inh['exp_eqs']]
+            if got_eqs is None:
+                if inh['kind'] == 'delayterm':
+                    obsv.abort()
+                    V('L-inherit', 'loud', 'delayterm', f'loading the derived operator (edits {json.dumps(inh["edits"])}) raised {load_exc}')
+                    return res
+            elif sorted(got_eqs) != sorted(want_eqs):
+                obsv.abort()
+                V('L-inherit', 'silent', inh['kind'] + '-text', f'derived operator (edits {json.dumps(inh["edits"])}) has equations '
+                                                                 f'{got_eqs}, expected {want_eqs}')
+                return res
+            if inh['kind'] == 'delayterm':
+                obsv.abort()
+                bump('inherit_text_only')
+                res['nontrivial'] = True
+                return res
             # (1) derived through YAML, loaded by the observer in a pristine process
             obsv.submit(None, 'obs_yaml', path=os.path.join(cwd, 'inh/der_c'))
             # (2) explicitly written expectation, built through the Python classes
